@@ -12,6 +12,7 @@ import GlareModel.Core.Collection
 import GlareModel.Core.Tokens
 import GlareModel.Core.Unify
 import GlareModel.Core.Footer
+import GlareModel.Core.Layout
 
 /-! `gmodel`: line-protocol driver. Reads `case <n> <component> ...` lines on stdin and
 prints `out <n> ...` lines computed by the code-shaped model. -/
@@ -360,6 +361,16 @@ def runFooter (args : List String) : String :=
     | _, _ => "bad-case"
   | _ => "bad-case"
 
+/-- `case N layout <w1,w2,...|->`: validity width, row width and offsets of the row-layout model. -/
+def runLayout (args : List String) : String :=
+  match args with
+  | [ws] =>
+    let widths := if ws == "-" then [] else (ws.splitOn ",").filterMap String.toNat?
+    let l := Layout.rowLayout widths
+    let os := if l.offsets.isEmpty then "-" else ",".intercalate (l.offsets.map toString)
+    s!"v={l.validityWidth} w={l.rowWidth} o={os}"
+  | _ => "bad-case"
+
 def step (line : String) : Option String :=
   -- `case N sem <payload>`: the payload keeps its spaces
   match (line.trimAscii.toString.splitOn " ") with
@@ -375,6 +386,7 @@ def step (line : String) : Option String :=
   | "case" :: n :: "cast" :: args => some s!"out {n} {runCast args}"
   | "case" :: n :: "like" :: args => some s!"out {n} {runLike args}"
   | "case" :: n :: "rle" :: args => some s!"out {n} {runRle args}"
+  | "case" :: n :: "layout" :: args => some s!"out {n} {runLayout args}"
   | "case" :: n :: "footer" :: args => some s!"out {n} {runFooter args}"
   | "case" :: n :: "unify" :: args => some s!"out {n} {runUnify args}"
   | "case" :: n :: "tok" :: args => some s!"out {n} {runTok args}"
